@@ -5,8 +5,14 @@
 //! takes a snapshot after it.  Snapshots are taken by the `snap` built-in from
 //! the real `Env` and the virtual process record.
 
+#[path = "c13_sched.rs"]
+#[allow(dead_code)]
+mod sched;
+
 use std::cell::RefCell;
 use std::collections::BTreeMap;
+use std::time::Duration;
+use yash_env::system::concurrency::Sleep as _;
 use yash_env::builtin::{Builtin, Type};
 use yash_env::option::State as OptState;
 use yash_env::semantics::{ExitStatus, Field};
@@ -131,6 +137,16 @@ fn snap_main(env: &mut VEnv, args: Vec<Field>) -> BuiltinFuture<'_> {
         let s = take_snapshot(env);
         SNAPS.with(|v| v.borrow_mut().push((label, pid, s)));
         // keep $? as it was so that taking a snapshot is not itself a mutation
+        ExitStatus(status.0).into()
+    })
+}
+
+/// `nap`: lets one millisecond of virtual time pass (a blocking point, so the
+/// scheduler can run another process in between).
+fn nap_main(env: &mut VEnv, _args: Vec<Field>) -> BuiltinFuture<'_> {
+    Box::pin(async move {
+        let status = env.exit_status;
+        env.system.sleep(Duration::from_millis(1)).await;
         ExitStatus(status.0).into()
     })
 }
@@ -279,6 +295,10 @@ struct Scenario {
     outer_subshell: bool,
     /// /dev/tty exists
     tty: bool,
+    /// 0 = the default executor; k > 0 = schedule-controlled run with policy k
+    /// and blocking points (`nap`) between the mutators; the parent takes
+    /// snapshots while the child is under way
+    sched: u64,
 }
 
 fn script(sc: &Scenario) -> String {
@@ -288,8 +308,16 @@ fn script(sc: &Scenario) -> String {
         inner.push(SETUPS[*s].to_string());
     }
     let muts: Vec<&str> = sc.mutators.iter().map(|m| MUTATORS[*m]).collect();
-    let body = format!("snap entry; {}; snap childend", muts.join("; "));
-    let test = wrap(sc.kind, &body, sc.long);
+    let body = if sc.sched > 0 {
+        format!("snap entry; nap; {}; nap; snap childend", muts.join("; nap; "))
+    } else {
+        format!("snap entry; {}; snap childend", muts.join("; "))
+    };
+    let mut test = wrap(sc.kind, &body, sc.long);
+    if sc.sched > 0 && sc.kind == 4 {
+        // asynchronous list: the parent goes on while the child runs
+        test = test.replace("& wait", "& snap mid1; nap; snap mid2; nap; nap; snap mid3; wait");
+    }
     if sc.nested_in_function {
         inner.push(format!("tester() {{ snap before; {test}; snap after; }}"));
         inner.push("tester".to_string());
@@ -315,18 +343,31 @@ fn run(sc: &Scenario, w: &mut CasesWriter) {
     let tty = sc.tty;
     SNAPS.with(|v| v.borrow_mut().clear());
     OFD_IDS.with(|m| m.borrow_mut().clear());
-    let (out, _state) = run_shell(
-        RunOpts { argv: vec!["-c".into(), text.clone()], ..Default::default() },
-        move |env, state| {
-            STATE.with(|s| *s.borrow_mut() = Some(state.clone()));
-            if tty {
-                yash_env::test_helper::stub_tty(state);
-            }
-            env.builtins.insert("snap", Builtin::new(Type::Mandatory, snap_main));
-            // mkdir stand-in
-            env.builtins.insert("mkdir", Builtin::new(Type::Mandatory, mkdir_main));
-        },
-    );
+    let setup = move |env: &mut VEnv, state: &State| {
+        STATE.with(|s| *s.borrow_mut() = Some(state.clone()));
+        if tty {
+            yash_env::test_helper::stub_tty(state);
+        }
+        env.builtins.insert("snap", Builtin::new(Type::Mandatory, snap_main));
+        env.builtins.insert("nap", Builtin::new(Type::Mandatory, nap_main));
+        // mkdir stand-in
+        env.builtins.insert("mkdir", Builtin::new(Type::Mandatory, mkdir_main));
+    };
+    let opts = RunOpts { argv: vec!["-c".into(), text.clone()], ..Default::default() };
+    let out = if sc.sched == 0 {
+        run_shell(opts, setup).0
+    } else {
+        let r = Rng::new(sc.sched);
+        let policy = match sc.sched % 5 {
+            0 => sched::Policy::First,
+            1 => sched::Policy::Last,
+            2 => sched::Policy::Random(r),
+            3 => sched::Policy::MainLast(r),
+            _ => sched::Policy::MainFirst(r),
+        };
+        w.count(&format!("sched-policy:{}", sc.sched % 5));
+        sched::run_shell_sched(opts, setup, policy, 200_000).0
+    };
     let snaps = SNAPS.with(|v| std::mem::take(&mut *v.borrow_mut()));
     // the parent is the process that took the "before" snapshot; the child is
     // any other process
@@ -385,7 +426,29 @@ fn run(sc: &Scenario, w: &mut CasesWriter) {
         json_str(&out.stderr)
     );
     let nontrivial = entry != childend && !ended_early;
-    w.push(&term, &json, &[], if nontrivial { Some(text) } else { None });
+    w.push(&term, &json, &[], if nontrivial { Some(text.clone()) } else { None });
+    // snapshots the parent took while the child was under way: same oracle
+    for label in ["mid1", "mid2", "mid3"] {
+        if let Some(mid) = get(label, true) {
+            w.count("mid-snapshot");
+            let term = format!(
+                "({}, {}, {}, {}, {})",
+                KINDS[sc.kind],
+                snap_coq(&before),
+                snap_coq(&entry),
+                snap_coq(&childend),
+                snap_coq(&mid)
+            );
+            let json = format!(
+                "{{\"script\":{},\"parent_snapshot\":{},\"before\":{},\"after\":{}}}",
+                json_str(&text),
+                json_str(label),
+                snap_json(&before),
+                snap_json(&mid)
+            );
+            w.push(&term, &json, &[], Some(format!("{text}#{label}")));
+        }
+    }
 }
 
 fn mkdir_main(env: &mut VEnv, args: Vec<Field>) -> BuiltinFuture<'_> {
@@ -437,6 +500,7 @@ fn main() {
                         long: (kind + m) % 2 == 0,
                         outer_subshell: (kind + m) % 3 == 0,
                         tty: (kind + m) % 5 == 0,
+                        sched: if (kind + m) % 2 == 1 { (kind * 100 + m) as u64 + 1 } else { 0 },
                     },
                     &mut w,
                 );
@@ -453,6 +517,7 @@ fn main() {
                     long: m % 2 == 0,
                     outer_subshell: m % 3 == 0,
                     tty: m % 5 == 0,
+                    sched: if m % 2 == 1 { m as u64 + 1 } else { 0 },
                 },
                 &mut w,
             );
@@ -473,6 +538,7 @@ fn main() {
                 long: r.chance(1, 2),
                 outer_subshell: r.chance(1, 3),
                 tty: r.chance(1, 3),
+                sched: if r.chance(1, 2) { 1 + r.below(1_000_000) as u64 } else { 0 },
             },
             &mut w,
         );
